@@ -88,6 +88,9 @@ def file_text(ns, imports, defines):
         body.append("T_%s: 't_%s' name=ID;" % (tag(ns), tag(ns)))
     if ns in defines:
         body.append("X: 'x_%s' name=ID;" % tag(ns))
+    if target:
+        # an alias-like rule (a single rule reference): abstract, inherited by exactly the X it denotes
+        body.append("AX_%s: X;" % tag(ns))
     return '\n'.join(lines + body) + '\n'
 
 
@@ -137,6 +140,11 @@ def run(cfg):
                 problems.append('X in %s resolves to %s, expected %s.X' % (ns, getattr(cls, '_tx_fqn', cls), target))
             elif cls._tx_fqn != target + '.X':
                 problems.append('%s.X reports the qualified name %s' % (target, cls._tx_fqn))
+            ax = mm.namespaces[ns].get('AX_%s' % tag(ns))
+            inh = [getattr(c_, '_tx_fqn', c_) for c_ in getattr(ax, '_tx_inh_by', [])]
+            if inh != [target + '.X']:
+                problems.append('the alias rule AX_%s: X; of %s is inherited by %s, expected [%s.X]' % (
+                    tag(ns), ns, inh, target))
             if ns == 'root' or any(i == ns for _, i in imports['root']):
                 text.append(('u_%s x_%s n' % (tag(ns), tag(target)), ns, target))
         # one namespace object per file, shared by all importers
